@@ -16,14 +16,16 @@ import os
 
 import vlib
 
-KINDS = ["t1issuer", "t5issuer", "t2issuer", "t3issuer", "batch", "eckey", "edkey", "edfirst", "ecfirst", "t2raw", "t3raw", "t1odd", "t1warm", "batchcollide"]
+KINDS = ["t1issuer", "t5issuer", "t2issuer", "t3issuer", "batch", "eckey", "edkey", "edfirst", "ecfirst", "t2raw", "t3raw", "t1odd", "t1warm", "batchcollide", "t1long", "eczero"]
 # "edfirst"/"ecfirst": the same programs as edkey/eckey, each in a process of its own where the program's concurrent
 # calls are the first use of the package (lazy package-level tables behind sync.Once are initialised by racing goroutines)
 # "t1odd": the type-1 issuer programs with requests whose element is in uncompressed form (refused - concurrently too)
 # "t1warm": the type-1 programs on an issuer whose key object had its public key computed (and another issuer built from it) before
+# "t1long": the type-1 programs in long use (every call 40 times, bursts of quickly refused calls between them)
+# "eczero": the eckey programs with a blind key whose scalar begins with a zero byte, every call 40 times
 # "batchcollide": the batch programs with two type-1 issuers whose key ids end in the same byte (the first configured answers)
 # "t2raw"/"t3raw": the issuer programs on an issuer whose RSA key was assembled from its components (nothing precomputed)
-GEN_CFG = {"edfirst": "edkey", "ecfirst": "eckey", "t2raw": "t2issuer", "t3raw": "t3issuer", "t1odd": "t1issuer", "t1warm": "t1issuer", "batchcollide": "batch"}
+GEN_CFG = {"edfirst": "edkey", "ecfirst": "eckey", "t2raw": "t2issuer", "t3raw": "t3issuer", "t1odd": "t1issuer", "t1warm": "t1issuer", "batchcollide": "batch", "t1long": "t1issuer", "eczero": "eckey"}
 
 
 def describe(e, case):
